@@ -11,8 +11,9 @@ CONSTANTS
   Disabled = {"UserStats"}
   MaxEvents = 4
   Askers = {"me", "u1"}
-  Queries = {"qhit", "qmiss"}
+  Queries = {"qhit", "qgone"}
   Hits <- MC_Hits
+  HitsX <- MC_HitsX
   MaxSearches = 2
   FixReannounce = TRUE
   FixChildParent = TRUE
